@@ -60,7 +60,10 @@ func c06MsgRef(s c06MsgScen, withPayload bool) *mw.Packet {
 	if s.ResponseTopic != "" {
 		pr.ResponseTopic = strp(s.ResponseTopic)
 	}
-	if len(s.Corr) > 0 || s.CorrEmpty {
+	// gmqtt.Message has no presence bit: a zero length CorrelationData means "absent" (MessageFromPublish,
+	// TotalBytes and - since the fix for F-c06-msgsize-empty-corrdata - MessageToPublish agree on that).
+	// CorrEmpty still feeds a non-nil empty slice into the code under test.
+	if len(s.Corr) > 0 {
 		pr.HasCorrelationData, pr.CorrelationData = true, s.Corr
 	}
 	if s.Expiry != 0 {
@@ -232,5 +235,6 @@ func c06RunMsg(s c06MsgScen, c *ev.Case) *ev.Violation {
 }
 
 func TestC06MessageSize(t *testing.T) {
+	ev.SetRule("C06", c06Rule)
 	ev.RunN(t, "C06", 0.5, c06GenMsg, c06RunMsg)
 }
